@@ -8,7 +8,7 @@ From Coq Require Import String ZArith NArith QArith List Bool Lia Permutation.
 From Typify Require Import Base.Json Spec.Schema Spec.Valid IR.TypeIR IR.Serde Check.Covers.
 From Typify Require Import Proofs.SerdeProofs Proofs.CoversProofs.
 From Typify Require Algo.Heck Algo.Sanitize.
-From Typify Require Import Algo.Convert Proofs.ConvertProofs Proofs.ConvertShapeProofs.
+From Typify Require Import Algo.Convert Proofs.ConvertProofs Proofs.ConvertShapeProofs Proofs.ConvertIntProofs.
 Import ListNotations.
 Close Scope Q_scope.
 Close Scope string_scope.
@@ -93,13 +93,13 @@ Section CoversMain.
       destruct Hcases as [(l & tt & -> & -> & Hsp & Hkt)
                          |(-> & -> & -> & -> & -> & -> & -> & -> & -> & -> & -> & -> & -> & Hrk)].
       + pose proof Hkt as Hinv. apply kind_of_type_inv in Hinv.
-        destruct Hinv as (-> & Hsv & Hlen & Henum & Hikk & Hobj & Hfmt & Hinv).
+        destruct Hinv as (Hnv & Hsv & Hlen & Henum & Hikk & Hobj & Hfmt & Hinv).
         assert (Htyis : forall nn0 want, (nl = true -> nn0 = true) -> tt <> TNull ->
                   existsb (itype_eqb tt) want = true -> ty_is nn0 (Some l) want = true).
         { intros nn0 want Hnn Hnull Hw'. eapply ty_is_split; eassumption. }
         assert (Hleaf : forall t0, kshape cls D T (shape cls D T) k items props req ap t0 ->
                   forall ft0 nn0, (nl = true -> nn0 = true) ->
-                  go re native T A cov (Some l) fmt enum None numv_none sv ik items mni mxi props req ap
+                  go re native T A cov (Some l) fmt enum None nv sv ik items mni mxi props req ap
                      None None None None None (S ft0) nn0 t0 = true).
         { intros t0 Hk0 ft0 nn0 Hnn.
           destruct k as [| | | |mx mn pat|r|raws|deny| | | |r|]; try contradiction; cbn [kshape] in Hk0.
@@ -119,12 +119,10 @@ Section CoversMain.
             cbn [leaf_ok s_max_length s_min_length s_pattern].
             rewrite (Htyis nn0 [TString] Hnn); [|discriminate|reflexivity]. unfold has in Hsid. rewrite Hsid.
             rewrite opt_le_refl, opt_ge_refl, opt_pat_refl. reflexivity.
-          - destruct Hinv as [-> Hfmt']. eapply go_leaf; [exact Hk0|reflexivity..|].
+          - destruct Hinv as [-> (b & Hb & ->)]. eapply go_leaf; [exact Hk0|reflexivity..|].
             cbn [leaf_ok]. rewrite (Htyis nn0 [TInteger] Hnn); [|discriminate|reflexivity]. cbn [andb].
-            assert (Hik : int_kind_ok fmt r = true).
-            { destruct Hfmt' as [[-> ->]|(f & -> & Hf')]; [apply int_i64_ok|].
-              exact (proj1 (forallb_forall _ _) int_table_ok (f, r) (assoc_In _ _ _ Hf')). }
-            unfold int_kind_ok in Hik. exact Hik.
+            destruct (choose_int_fits fmt nv b Hb) as (lo & hi & nz & Hr & Hlo & Hhi).
+            rewrite Hr, Hlo, Hhi. reflexivity.
           - destruct Hk0 as (n & ids & Hv & Hk0). destruct Hinv as [-> (es & -> & Hjs)].
             eapply go_leaf; [exact Hk0|reflexivity..|].
             cbn [leaf_ok]. rewrite (Htyis nn0 [TString] Hnn); [|discriminate|reflexivity]. cbn [andb].
